@@ -795,8 +795,11 @@ class TokenizerCore:
             tokens = len(self.tokens)
             self._scan(check_semicolon=True)
             self.tokens = self.tokens[:tokens]
-            text = self.sql[start : self._current].strip()
+            raw = self.sql[start : self._current]
+            text = raw.strip()
             if text:
+                # The token describes the whole command tail, not just its last inner token
+                self._start = start + len(raw) - len(raw.lstrip())
                 self._add(TokenType.STRING, text)
 
     def _scan_keywords(self) -> None:
